@@ -54,6 +54,18 @@ def run(ctx):
         return any(pred(getattr(s_, 'value', None)) for s_ in sts)
     subscripted = sorted({dotted(n.value) for n in ast.walk(new) if isinstance(n, ast.Subscript) and isinstance(n.value, ast.Name)})
     memo_names = [nm for nm in subscripted if _defined_as(nm, lambda v: isinstance(v, ast.Dict) and not v.keys)]
+    # the table the new instance is published into must remember every configuration ever built (identity of equal
+    # configurations is the property): a bounded or weak cache forgets live ones
+    ctx.rule('C17.R9', 'equal configurations are one object for the life of the process: the module-level table into which '
+             '__new__ stores the new instance (NAME[key] = self) is a plain, unbounded dictionary — not a bounded (LRU) or weak '
+             'cache that may evict a configuration still in use, after which an equal request builds a second object')
+    published = sorted({dotted(t.value) for a in walk_shallow(new) if isinstance(a, ast.Assign) for t in a.targets
+                        if isinstance(t, ast.Subscript) and isinstance(t.value, ast.Name) and dotted(a.value) in ('self', 'conf', 'instance')})
+    for nm in published:
+        plain = _defined_as(nm, lambda v: (isinstance(v, ast.Dict) and not v.keys) or (isinstance(v, ast.Call) and dotted(v.func) == 'dict' and not v.args))
+        ctx.ob('C17.R9', f'{Q}:singleton-table-unbounded:{nm}', W(new), 'the singleton table is a plain dictionary', plain,
+               f'{nm} is not an empty dict display: a cache with eviction forgets configurations still in use')
+    ctx.floor('C17.R9', len(published), 1, 'tables the new configuration is published into')
     ctx.require(len(memo_names) == 1, f'expected exactly one module-level memo dictionary used by {Q}, '
                                       f'found {memo_names}')
     MEMO = memo_names[0]
@@ -267,6 +279,7 @@ def run(ctx):
             if pn:
                 seen_v.add(id(hf))
                 work.append((hm, hf, pn, depth + 1))
+    by_value = []
     for vm, vf, p0 in expanded:
         alias = {}
         for a in ast.walk(vf):
@@ -288,6 +301,11 @@ def run(ctx):
                 child, p_ = p_, getattr(p_, '_parent', None)
             if test is None:
                 continue
+            for cmp_ in [x for x in ast.walk(test) if isinstance(x, ast.Compare)]:
+                sides = [cmp_.left] + list(cmp_.comparators)
+                on_option = any((isinstance(e, ast.Subscript) and dotted(e.value) == p0) or (isinstance(e, ast.Name) and e.id in alias) for e in sides)
+                if on_option and any(isinstance(o_, (ast.Eq, ast.NotEq, ast.In, ast.NotIn)) for o_ in cmp_.ops):
+                    by_value.append((vm, cmp_))
             for n_ in ast.walk(test):
                 if isinstance(n_, ast.Subscript) and dotted(n_.value) == p0:
                     if isinstance(n_.slice, ast.Constant) and isinstance(n_.slice.value, str):
@@ -296,6 +314,10 @@ def run(ctx):
                         validated.update(loops[n_.slice.id])
                 elif isinstance(n_, ast.Name) and n_.id in alias:
                     validated.add(alias[n_.id])
+    ctx.ob('C17.R1', 'validation:by-type-not-by-value', by_value[0][0].where(by_value[0][1]) if by_value else tm.where(tm.defs.get(VALIDATOR)),
+           'option values are validated by their type (isinstance / identity), never by == / in against sample values: the memo '
+           'table is keyed by equality, so a look-alike that passes (0 == False, 1.0 == True) is stored and later handed out for the '
+           'genuine value', not by_value, f'`{norm(by_value[0][1])[:80]}`' if by_value else '')
     for o in options:
         ctx.ob('C17.R1', f'validation:{o}', tm.where(tm.defs.get(VALIDATOR)),
                f'option {o} is examined by {VALIDATOR} / default_conf_kwargs', o in validated,
